@@ -407,9 +407,9 @@ def r11_calibration_numeric(ctx, R='C09.R11'):
     return Obj(CAL, {'_flatbuffer_model': model(), '_tfl_interpreter': Obj('x:Interpreter', {'reset_all_variables': shared._StandIn(reset, 'r')}),  # pylint: disable=protected-access
                      '_tensor_content_map': {}, '_model_qsvs': {}, '_cached_output': []})
 
-  def run(it, calo, ks):
+  def run(it, calo, ks, scoped=None):
     state['carry'] = 0   # a new interpreter starts from the initial state
-    rm = Obj('recipe_manager:RecipeManager', {'_scope_configs': store})
+    rm = Obj('recipe_manager:RecipeManager', {'_scope_configs': scoped or store})
     o = it.outcomes(cal, [calo, [{'k': k} for k in ks], rm, 'sig'], copy_args=False)
     return len(o) == 1 and o[0].kind == 'return', o
 
@@ -449,6 +449,22 @@ def r11_calibration_numeric(ctx, R='C09.R11'):
     ctx.check(R, isinstance(ew, dict) and isinstance(ew.get('min'), NdArr) and sorted(ew['min'].data) == [-7] and sorted(ew['max'].data) == [9] or
               (isinstance(ew, dict) and isinstance(ew.get('min'), NdArr) and ew['min'].size == 2 and ew['min'].data == [-7, -1] and ew['max'].data == [5, 9]),
               cal.node, cal, f'{label}: constant w -> {ew!r}', 'a constant keeps its true min/max (per tensor, or per channel for channel-wise weights), whatever the samples')
+  # a recipe that selects ONE of two operators of the same type (by the name of its output): that operator's tensors are
+  # calibrated, the other operator's own tensors are not - the verdict of one operator says nothing about the next
+  it = absint.Interp(ctx.repo, ctx.ev, hooks=hooks)
+  calo = new_cal(it)
+  ok, o = run(it, calo, [1, 2], scoped={'y;': [c11._recipe('y;', OP['FULLY_CONNECTED'], MM, srq)]})  # pylint: disable=protected-access
+  if not ok:
+    ctx.check(R, False, cal.node, cal, 'scoped recipe', f'not decided: {[x.short()[:120] for x in o]}')
+  else:
+    qs = calo.fields['_model_qsvs']
+    want = expected([1, 2])
+    for name in ('h', 'y'):
+      e = qs.get(name)
+      mn, mx = want[name]
+      good = isinstance(e, dict) and 'min' in e and abs(num(e['min']) - mn) <= fractions.Fraction(1, 10 ** 9) and abs(num(e['max']) - mx) <= fractions.Fraction(1, 10 ** 9)
+      ctx.check(R, good, cal.node, cal, f'recipe for the operator producing y only: {name} -> {e!r}'[:160], f'the selected operator (the second FULLY_CONNECTED) must be calibrated: {name} needs the statistics ({float(mn):.6g}, {float(mx):.6g})')
+    ctx.check(R, not qs.get('x'), cal.node, cal, f'recipe for the operator producing y only: x -> {qs.get("x")!r}'[:160], 'the first FULLY_CONNECTED is not selected: its input must not be calibrated')
   # D1 then D2 from the returned result == one pass over D1 + D2; the result passed in is untouched
   it = absint.Interp(ctx.repo, ctx.ev, hooks=hooks)
   a = new_cal(it)
